@@ -141,7 +141,7 @@ def run(ctx: Ctx) -> None:
             ctx.drift.append({"script": sc, "real": m["real"], "model": m["model"], "notes": m["notes"][:3]})
             continue
         for cl in real_clauses:
-            ctx.violation(cl, {"transport": sc["tr"], "kind": sc["kind"], "after_cancel": post_class(sc["ops"]),
+            ctx.violation(cl, {"transport": sc["tr"], "api": sc.get("api", "iter"), "kind": sc["kind"], "after_cancel": post_class(sc["ops"]),
                                "pert": sc["pert"], "hdr": sc["hdr"]},
                           {"script": sc, "variant": m["variant"], "x": m["x"], "real_history": m["real"],
                            "model_history": m["model"], "notes": m["notes"][:4]})
@@ -151,7 +151,7 @@ def run(ctx: Ctx) -> None:
 
 
 def table_key(sc: dict) -> str:
-    return "|".join([sc["tr"], sc["kind"], "h" if sc["hdr"] else "-", ",".join(sc["steps"]), "".join(sc["ops"]), sc["pert"]])
+    return "|".join([sc["tr"], sc.get("api", "iter"), sc["kind"], "h" if sc["hdr"] else "-", ",".join(sc["steps"]), "".join(sc["ops"]), sc["pert"]])
 
 
 def compact(hist: list) -> list:
